@@ -52,8 +52,14 @@ func NewCacheKeystoreWrapper(size int) (*Cache, error) {
 
 // Add value by keyID
 func (cache *Cache) Add(keyID string, keyValue []byte) {
+	// keep a private copy: the stored slice is wiped in place on eviction, the caller's must stay intact
+	var stored []byte
+	if keyValue != nil {
+		stored = make([]byte, len(keyValue))
+		copy(stored, keyValue)
+	}
 	cache.mutex.Lock()
-	cache.lru.Add(keyID, keyValue)
+	cache.lru.Add(keyID, stored)
 	cache.mutex.Unlock()
 }
 
